@@ -127,7 +127,7 @@ static void decode_one(const unsigned char *b, size_t n) {
         printf(", \"kind\": \"NEWSA\", \"sel\": "); selector(&u->sel);
         printf(", \"id\": {"); addr("daddr", &u->id.daddr, u->family); printf(", \"spi\": \"%08x\", \"proto\": %u}, ", ntohl(u->id.spi), u->id.proto);
         addr("saddr", &u->saddr, u->family); printf(", \"lft\": "); lft(&u->lft);
-        printf(", \"seq\": %u, \"reqid\": %u, \"family\": %u, \"mode\": %u, \"replay_window\": %u, \"flags\": %u, \"attrs\": ", u->seq, u->reqid, u->family, u->mode, u->replay_window, u->flags);
+        printf(", \"seq\": %u, \"reqid\": %u, \"family\": %u, \"mode\": %u, \"replay_window\": %u, \"sa_flags\": %u, \"attrs\": ", u->seq, u->reqid, u->family, u->mode, u->replay_window, u->flags);
         attrs(p + NLMSG_ALIGN(sizeof *u), pl - NLMSG_ALIGN(sizeof *u) <= pl ? pl - NLMSG_ALIGN(sizeof *u) : 0, &ok);
     } else ok = 0; break;
     case XFRM_MSG_DELSA: if (pl >= sizeof(struct xfrm_usersa_id)) {
@@ -137,7 +137,7 @@ static void decode_one(const unsigned char *b, size_t n) {
     case XFRM_MSG_NEWPOLICY: if (pl >= sizeof(struct xfrm_userpolicy_info)) {
         const struct xfrm_userpolicy_info *u = (const struct xfrm_userpolicy_info *)p;
         printf(", \"kind\": \"NEWPOLICY\", \"sel\": "); selector(&u->sel); printf(", \"lft\": "); lft(&u->lft);
-        printf(", \"priority\": %u, \"index\": %u, \"dir\": %u, \"action\": %u, \"flags\": %u, \"share\": %u, \"attrs\": ", u->priority, u->index, u->dir, u->action, u->flags, u->share);
+        printf(", \"priority\": %u, \"index\": %u, \"dir\": %u, \"action\": %u, \"pol_flags\": %u, \"share\": %u, \"attrs\": ", u->priority, u->index, u->dir, u->action, u->flags, u->share);
         attrs(p + NLMSG_ALIGN(sizeof *u), pl - NLMSG_ALIGN(sizeof *u) <= pl ? pl - NLMSG_ALIGN(sizeof *u) : 0, &ok);
     } else ok = 0; break;
     case XFRM_MSG_FLUSHSA: case XFRM_MSG_FLUSHPOLICY:
